@@ -691,6 +691,30 @@ impl<'tcx> Extractor<'tcx> {
                         }
                     }
                 }
+                // named aggregate constant (`const LEVELS: [&[char]; 2] = [&['+', '-'], ..]`): the literals of its
+                // initialiser and of the initialiser's promoted bodies
+                if uv.promoted.is_none() && uv.args.is_empty() && evaluated == "null" && uv.def.is_local() {
+                    if matches!(tcx.def_kind(uv.def), DefKind::Const { .. } | DefKind::AssocConst { .. }) {
+                        let cb = tcx.mir_for_ctfe(uv.def);
+                        for bbd in cb.basic_blocks.iter() {
+                            for st in bbd.statements.iter() {
+                                if let StatementKind::Assign(b) = &st.kind {
+                                    self.collect_consts(&b.1, &mut lits);
+                                }
+                            }
+                        }
+                        let proms = tcx.promoted_mir(uv.def);
+                        for pb in proms.iter() {
+                            for bbd in pb.basic_blocks.iter() {
+                                for st in bbd.statements.iter() {
+                                    if let StatementKind::Assign(b) = &st.kind {
+                                        self.collect_consts(&b.1, &mut lits);
+                                    }
+                                }
+                            }
+                        }
+                    }
+                }
                 Some(format!(
                     "{{\"uneval\":{},\"lits\":[{}],\"val\":{}}}",
                     js(&tcx.def_path_str(uv.def)),
